@@ -90,6 +90,13 @@ class Check:
             print("TOOL-ERROR: no TLC exploration recorded for %s" % self.pid)
             return 2
         if self.violations:
+            groups = {}
+            for sig, what, replay in self.violations:
+                k = json.dumps(sig, sort_keys=True)
+                groups[k] = groups.get(k, 0) + 1
+            print("violation signatures (%d cases, %d distinct):" % (len(self.violations), len(groups)))
+            for k, n in sorted(groups.items(), key=lambda x: -x[1])[:60]:
+                print("  %5d  %s" % (n, k))
             seen = set()
             for sig, what, replay in self.violations[:20]:
                 h = stable_hash([sig, what])
